@@ -37,6 +37,10 @@ STRUCTS['Poly2C'] = [
     ('is_convex', 'Opt B', '_is_convex', None),
     ('is_self_intersecting', 'Opt B', '_is_self_intersecting', None),
 ]
+# BooleanPoint (boolean.py) and earcut _Node carry plain attributes x, y
+STRUCTS['BP'] = [('x', 'S', 'x', None), ('y', 'S', 'y', None)]
+LEAN_NAME = {'BP': 'V2'}
+
 # struct types that must list exactly the class's __slots__ (a new slot breaks translation)
 SLOT_COMPLETE = {'Poly2C': 'Polygon2D'}
 
@@ -53,6 +57,7 @@ RESULT_CLASSES = {
     'ConeS': ('Cone',),
     'CylS': ('Cylinder',),
     'Poly2C': ('Polygon2D',),
+    'BP': ('BooleanPoint', '_Node'),
 }
 
 
@@ -72,7 +77,7 @@ def lean_type(t):
     if t == 'X':
         return 'Opq'
     if isinstance(t, str):
-        return '%s α' % t
+        return '%s α' % LEAN_NAME.get(t, t)
     if t[0] == 'opt':
         return 'Option (%s)' % lean_type(t[1])
     if t[0] in ('list', 'ptlist'):
@@ -94,6 +99,7 @@ def make_input(index, term, mtype, pycls):
     if isinstance(mtype, str):
         ci = index.find_class(pycls)
         o = Obj(ci)
+        pycls = ci.name
         if mtype in SLOT_COMPLETE:
             have = set(index.all_slots(ci))
             want = set(sl for (_, _, sl, _) in STRUCTS[mtype])
